@@ -96,7 +96,7 @@ def history_stream(run, n_cases):
             d = None
             if what == "read":
                 try:
-                    d = O.diff_canon(O.canon(res[0][1]), O.canon(res[1][1]))
+                    d = O.diff_canon(O.canon(res[0][1]), O.canon(res[1][1]), 1e-5 if name in O.ROUNDING_OPS else 0.0)
                 except TimeoutError:      # a slow box is an infrastructure problem (exit 2), never a verdict
                     raise
                 except Exception:  # noqa: BLE001
